@@ -33,8 +33,8 @@ PROPS = {
     "C09": dict(profile="C09", checked=["mask"], gen=["rk", "pt", "it", "it", "mt"], itercls="mask", masks=True,
                 quick_cfgs=["default", "flushy", "flushy2", "manual", "nolazy", "ext", "extman"]),
     "C14": dict(profile="C14", checked=["latest", "snap", "view", "efos"], gen=["pt", "rk", "mt", "mt", "sn", "it"], itercls="view",
-                exh=dict(quick=[(["pt", "rk", "mt", "sn"], 3, (1, 1), 2)],
-                         thorough=[(["pt", "rk", "mt", "sn"], 3, (1, 1), 3), (["pt", "rk", "mt"], 4, (1, 1), 1)]),
+                exh=dict(quick=[(["pt", "mt", "sn", "ig"], 3, (1, 1), 2)],
+                         thorough=[(["pt", "rk", "mt", "sn"], 3, (1, 1), 3), (["pt", "mt", "sn", "ig"], 3, (1, 1), 3), (["pt", "rk", "mt"], 4, (1, 1), 1)]),
                 quick_cfgs=["flushy", "flushy2", "manual", "valsep", "bigvals", "oldfmv"]),
     "C36": dict(profile="C36", checked=["latest", "view"], gen=["ig", "ig", "pt", "rk", "it", "mt"], itercls="view",
                 quick_cfgs=["default", "flushy", "flushy2", "manual", "nolazy", "ext"]),
